@@ -112,10 +112,11 @@ theorem toyR_rho : RhoNeverFails toyR := by
   subst hp
   simp [toyR, toy, manyAt]
 
-/-- `toy` with an exact primality test -/
-def toyP : Oracle Unit := { toy with prime := fun s m => (decide (Nat.Prime m), s) }
-
-theorem toyP_ok : OracleOK toyP := toy_ok.with_prime _
+/-- the pseudoprime test of `toy` never accepts a composite -/
+theorem toy_prime_sound : ∀ (t : Unit) (m : Nat), (toy.prime t m).1 = true → Nat.Prime m := by
+  intro t m h
+  simp only [toy, decide_eq_true_eq] at h
+  rcases h with rfl | rfl <;> norm_num
 
 /-- `toy` whose `rho` always fails (still satisfies the contract) -/
 def toyNoRho : Oracle Unit := { toy with rho := fun s _ => (none, s) }
